@@ -370,6 +370,8 @@ class FreeEnergy(InterpolatableFunction):
                     )
             fieldPrevious = np.array(phase0, dtype=float)
             while ode.status == "running":
+                temperaturePrevious = ode.t
+                slopePrevious = np.array(ode.f, dtype=float)
                 try:
                     ode.step()
                 except RuntimeWarning as error:
@@ -386,6 +388,22 @@ class FreeEnergy(InterpolatableFunction):
                     float(np.linalg.norm(fieldOde - fieldPrevious)),
                     np.sqrt(rTol) * max(*abs(phase0), T0),
                 )
+                # The step itself must be continuous: the displacement has to agree
+                # with the trapezoidal estimate from the slopes d(phi)/dT at its two ends
+                # (accurate to a small fraction of the displacement whenever the error
+                # control of the integrator means anything). A step that has jumped over
+                # the end of the phase, next to another minimum or onto a branch with
+                # non-vanishing gradient, violates this grossly.
+                trapezoid = (
+                    0.5
+                    * (slopePrevious + np.asarray(ode.f, dtype=float))
+                    * (ode.t - temperaturePrevious)
+                )
+                displacement = fieldOde - fieldPrevious
+                if np.linalg.norm(displacement - trapezoid) > 0.5 * np.linalg.norm(
+                    displacement
+                ) + np.sqrt(rTol) * max(*abs(phase0), T0):
+                    break
                 if paranoid:
                     phaset, potentialEffT = self.effectivePotential.findLocalMinimum(
                         Fields((ode.y)),
